@@ -48,6 +48,7 @@ func TestVerif(t *testing.T) {
 		verifAdv(t, r, out, "adv6")
 		verifReinit(t, r, out)
 	case "C07":
+		verifReinitRS(t, r, out)
 		verifSched(t, r, out, "sch7")
 		verifAdv(t, r, out, "adv7")
 		verifConcurrentFailures(t, out)
@@ -64,6 +65,7 @@ func TestVerif(t *testing.T) {
 		verifC20(t, r, out)
 	case "C09":
 		verifC09(t, r, out)
+		verifBadTypeWhileUnreadable(t, out)
 	case "C10":
 		verifC09(t, r, out) // the receive-retry clause of C10 is the listener's loop
 		verifC10Group(t, r, out)
